@@ -62,6 +62,17 @@ META = {
         assumptions=["real scheduling, timers and the Go memory model are not modelled: the model is the table logic"],
         timeout=1800,
     ),
+    "C15": dict(
+        rule="streams of 1-10 BranchCommit/BranchRollback requests mixing branch types AT/TCC/XA (scripted stub "
+             "managers registered in the real ResourceManagerCache), SAGA and unknown types, shared xids and branch "
+             "ids, manager outcomes status/error, pushed concurrently on one session through the real OnMessage -> "
+             "processors -> SendAsyncResponse path; response frames matched to requests by message id and compared "
+             "with the Lean processAll. non-trivial = more than one request",
+        trusted=["fakecoord; stub resource managers; a panic inside OnMessage is recovered by the delivering goroutine "
+                 "as dubbo-getty's task-pool worker does (observed effect: no response)"],
+        assumptions=["when the manager returns an error no response is sent (the coordinator retries): the property's "
+                     "'never reports a success status' is what is required there"],
+    ),
 }
 
 def _member(impl, model):
